@@ -828,7 +828,7 @@ func genC03(r *simrt.Rand, tier string) any {
 		{Path: "/d/g", Kind: "file", Mode: 0o600, Size: r.Int(100), Seed: r.Uint64()},
 	}
 	n := 4 + r.Int(14)
-	verfs := []uint64{1, 2, r.Uint64()}
+	verfs := []uint64{1, 2, r.Uint64(), 0} // the all-zero verifier is a verifier like any other
 	names := []string{"f", "d", "l", "dl", "new1", "new2", "x"}
 	for i := 0; i < n; i++ {
 		switch r.Pick([]int{70, 10, 10, 10}) {
